@@ -53,26 +53,38 @@ type VhFront struct {
 
 // VhLoadSource parses and type-checks src as the single file of package example.com/ctl and wires up a visiting context.
 func VhLoadSource(src string, patch func(f *ast.File)) (*VhFront, error) {
+	return VhLoadSources([]string{"ctl.go"}, []string{src}, patch)
+}
+
+// VhLoadSources does the same for a package of several files (patch is applied to each parsed file).
+func VhLoadSources(names []string, srcs []string, patch func(f *ast.File)) (*VhFront, error) {
 	dir := filepath.Join(os.TempDir(), "gosym-vh-front")
-	path := filepath.Join(dir, "ctl.go")
-	if !symxIsSymbolic() {
-		// natively the file has to exist: FileVersion stats and hashes it
-		if err := os.MkdirAll(dir, 0o755); err != nil {
-			return nil, err
-		}
-		if err := os.WriteFile(path, []byte(src), 0o644); err != nil {
-			return nil, err
-		}
-	}
 	facade := arbitrators.VhNewFacade()
 	fset := facade.FSet()
-	file, err := parser.ParseFile(fset, path, src, parser.ParseComments)
-	if err != nil {
-		return nil, err
+	var files []*ast.File
+	var paths []string
+	for k, name := range names {
+		fpath := filepath.Join(dir, name)
+		if !symxIsSymbolic() {
+			// natively the file has to exist: FileVersion stats and hashes it
+			if err := os.MkdirAll(dir, 0o755); err != nil {
+				return nil, err
+			}
+			if err := os.WriteFile(fpath, []byte(srcs[k]), 0o644); err != nil {
+				return nil, err
+			}
+		}
+		f, err := parser.ParseFile(fset, fpath, srcs[k], parser.ParseComments)
+		if err != nil {
+			return nil, err
+		}
+		if patch != nil {
+			patch(f)
+		}
+		files = append(files, f)
+		paths = append(paths, fpath)
 	}
-	if patch != nil {
-		patch(file)
-	}
+	file, path := files[0], paths[0]
 	newInfo := func() *types.Info {
 		return &types.Info{
 			Types: map[ast.Expr]types.TypeAndValue{}, Defs: map[*ast.Ident]types.Object{}, Uses: map[*ast.Ident]types.Object{},
@@ -108,13 +120,15 @@ func VhLoadSource(src string, patch func(f *ast.File)) (*VhFront, error) {
 		arbitrators.VhCachePackage(facade, loaded)
 	}
 	info := newInfo()
-	tpkg, err := (&types.Config{Importer: im}).Check("example.com/ctl", fset, []*ast.File{file}, info)
+	tpkg, err := (&types.Config{Importer: im}).Check("example.com/ctl", fset, files, info)
 	if err != nil {
 		return nil, err
 	}
 	pkg := &packages.Package{ID: "example.com/ctl", Name: tpkg.Name(), PkgPath: "example.com/ctl", Types: tpkg, TypesInfo: info, Fset: fset,
-		Syntax: []*ast.File{file}, GoFiles: []string{path}, CompiledGoFiles: []string{path}, Imports: imports}
-	arbitrators.VhRegister(facade, pkg, path, file)
+		Syntax: files, GoFiles: paths, CompiledGoFiles: paths, Imports: imports}
+	for k := range files {
+		arbitrators.VhRegister(facade, pkg, paths[k], files[k])
+	}
 	g := symboldg.NewSymbolGraph()
 	sp := providers.NewSyncedProvider()
 	prov := providers.VhNewArbitrationProvider(facade)
